@@ -1261,8 +1261,11 @@ fn gen(rng: &mut Rng, n: usize, _tier: &str) -> Vec<Req> {
     for w in model::witness_reqs(&ex) {
         reqs.push(Req::new(w, "schema.witness"));
     }
-    for _ in 0..n {
-        reqs.push(model::gen_schema_req(rng, &ex));
+    // (the request lines carry the schema: capped so that the thorough tier stays within its budget)
+    // (own generator state: `Rng::new(seed)` streams of nearby seeds are shifted copies of each other)
+    let mut srng = Rng::new(rng.next() ^ 0x5c18_5c18_5c18_5c18);
+    for _ in 0..n.min(100_000) {
+        reqs.push(model::gen_schema_req(&mut srng, &ex));
     }
     reqs
 }
